@@ -53,6 +53,10 @@ pub fn message_type_code(m: &t::MessageType) -> u16 {
         CallDisconnectNotify => 14,
         WanErrorNotify => 15,
         SetLinkInfo => 16,
+        // a variant added to the crate after the model was written (see
+        // err_kind): a code point / attribute the reference never yields
+        #[allow(unreachable_patterns)]
+        _ => 0xffff,
     }
 }
 
@@ -86,6 +90,10 @@ pub fn proxy_type_code(p: &t::ProxyAuthenType) -> u16 {
         PppPap => 3,
         NoAuthentication => 4,
         MicrosoftChapVersion1 => 5,
+        // a variant added to the crate after the model was written (see
+        // err_kind): a code point / attribute the reference never yields
+        #[allow(unreachable_patterns)]
+        _ => 0xffff,
     }
 }
 
@@ -114,6 +122,10 @@ pub fn error_type_code(e: &rc::ErrorType) -> u16 {
         Generic => 6,
         TryAnotherDestination => 7,
         UnknownMandatoryAvp => 8,
+        // a variant added to the crate after the model was written (see
+        // err_kind): a code point / attribute the reference never yields
+        #[allow(unreachable_patterns)]
+        _ => 0xffff,
     }
 }
 
@@ -463,6 +475,10 @@ pub fn from_crate_avp(a: &AVP) -> SpecAvp {
         AVP::RxConnectSpeed(x) => (38, Val::U32(x.value)),
         AVP::SequencingRequired(_) => (39, Val::Empty),
         AVP::Hidden(h) => (h.attribute_type, Val::Hidden(h.value.clone())),
+        // a variant added to the crate after the model was written (see
+        // err_kind): a code point / attribute the reference never yields
+        #[allow(unreachable_patterns)]
+        _ => (0xffff, Val::Empty),
     };
     SpecAvp { attr, val }
 }
